@@ -36,6 +36,8 @@ mod c11;
 mod c13;
 #[cfg(all(kani, feature = "c14"))]
 mod c14;
+#[cfg(all(kani, feature = "c14_gen"))]
+mod c14_gen;
 #[cfg(all(kani, feature = "c15"))]
 mod c15;
 #[cfg(all(kani, feature = "c16"))]
